@@ -116,7 +116,7 @@ def _canon_library(o, sink, stack, probe):
                 canon(arr, sink, stack, False)
             return ("Series", canon(o.name, None, stack), str(o.dtype), canon(arr, None, stack), canon(numpy.asarray(o.index.to_numpy()), None, stack))
         return None
-    if not mod.startswith("pybrops"):
+    if not is_library(o):      # instances of a user's subclass of a library class are library objects too
         return None
     if not probe:     # hand-over digests (every step): the cheap walk over the instance's own fields is enough there;
         return None   # the observable-equality walk is for comparisons with the initial state (probe=True)
@@ -139,12 +139,12 @@ def _canon_library(o, sink, stack, probe):
     finally:
         _CTX["index"] = index
     if index is not None:
-        rec = {k: v for k, v in items[1:]}
+        rec = {k: v for k, v in items}      # incl. "__class__": a copy of another class is a differing copy
         if beh is not None:
             for k, v in beh[1]:
                 rec["behaviour: %s" % k[1]] = v
         index.append((type(o).__qualname__, rec))
-        return ("library-object-placeholder", type(o).__qualname__)
+        return ("library-object-placeholder",)
     out = ("library-object", tuple(items))
     if probe:
         out = out + (beh,)
@@ -164,11 +164,14 @@ def lib_index(conts):
     return sk, index
 
 
-def lib_diff(conts_a, conts_b):
-    """None when the two states differ outside their library objects (or hold different ones); else a list of
-    (class name, sorted differing fields) for the library objects that differ."""
+def lib_diff(conts_a, conts_b, info=None):
+    """None when the two states differ outside their library objects (or hold different numbers of them); else a list of
+    (class name in conts_a, sorted differing fields) for the library objects that differ; the pseudo-field "__class__"
+    differs when the counterpart is an instance of another class (e.g. the base class of a user's subclass)."""
     ska, ia = lib_index(conts_a)
     skb, ib = lib_index(conts_b)
+    if info is not None:
+        info["user_subclass_instances"] = sum(1 for name, _ in ia if name.startswith("UserSubclass"))
     if ska != skb or len(ia) != len(ib):
         return None
     out = []
@@ -180,6 +183,72 @@ def lib_diff(conts_a, conts_b):
 
 
 _FIELDS = {}
+_ISLIB = {}
+
+
+def is_library(o):
+    """Instance of a class of the library or of a (user's) class derived from one."""
+    t = type(o)
+    r = _ISLIB.get(t)
+    if r is None:
+        r = _ISLIB[t] = any((c.__module__ or "").startswith("pybrops") for c in t.__mro__)
+    return r
+
+
+def user_subclass_of(o):
+    """Name of the library class a user's subclass (made by ``user_subclass``) derives from, else None."""
+    return getattr(type(o), "_user_subclass_of", None)
+
+
+def count_user_subclass_instances(conts):
+    return sum(1 for name, _ in lib_index(conts)[1] if name.startswith("UserSubclass"))
+
+
+_USERSUB = {}
+
+
+def user_subclass(base, level=1):
+    """What a user of the library writes: a subclass of a concrete library class with the SAME constructor, a class
+    attribute and one overridden query method (additive models report breeding values on another scale, genotype matrices
+    report the frequency of the other allele, breeding value matrices round their means, genetic maps interpolate in
+    centimorgans); level 2 = a subclass of such a subclass.  Instances are as valid in a state container as instances of
+    the base class; an equal state holds an instance of the same class, which answers the same way."""
+    key = (base, level)
+    cls = _USERSUB.get(key)
+    if cls is not None:
+        return cls
+    parent = base if level == 1 else user_subclass(base, level - 1)
+    ns = {"units": "user scale (level %d)" % level, "_user_subclass_of": base.__name__,
+          "describe": lambda self: "%s on %s" % (type(self).__name__, self.units), "__module__": __name__}
+    fam = _family_cls(base)
+    if level == 1:
+        if fam == "gmod":
+            def gebv_numpy(self, Z, **kwargs):
+                return parent.gebv_numpy(self, Z, **kwargs) * 1.5
+            ns["gebv_numpy"] = gebv_numpy
+        elif fam == "gmat":
+            def afreq(self, *args, **kwargs):
+                return 1.0 - parent.afreq(self, *args, **kwargs)
+            ns["afreq"] = afreq
+        elif fam == "bvmat":
+            def tmean(self, *args, **kwargs):
+                return numpy.round(parent.tmean(self, *args, **kwargs), 2)
+            ns["tmean"] = tmean
+        elif fam == "gmap":
+            def interp_genpos(self, *args, **kwargs):
+                return numpy.asarray(parent.interp_genpos(self, *args, **kwargs)) * 100.0
+            ns["interp_genpos"] = interp_genpos
+    cls = type("User%s%s" % ("" if level == 1 else "2", base.__name__), (parent,), ns)
+    cls.__qualname__ = "UserSubclass%s[%s]" % ("" if level == 1 else "2", base.__name__)
+    _USERSUB[key] = cls
+    return cls
+
+
+def _ucls(gs, cls):
+    """The class to instantiate: the library class itself or (own stream ``gs``, ~35 %) a user's subclass of it."""
+    if gs is None or gs.random() >= 0.35:
+        return cls
+    return user_subclass(cls, 1 if gs.random() < 0.7 else 2)
 _CTX = {"index": None}    # when a list: library objects are recorded there and replaced by a placeholder (see lib_index)
 
 
@@ -206,7 +275,11 @@ def _try(fn):
 
 
 def _family(o):
-    names = [c.__name__ for c in type(o).__mro__]
+    return _family_cls(type(o))
+
+
+def _family_cls(t):
+    names = [c.__name__ for c in t.__mro__]
     for key, fam in (("GenotypeMatrix", "gmat"), ("BreedingValueMatrix", "bvmat"), ("GenomicModel", "gmod"), ("GeneticMap", "gmap")):
         if key in names:
             return fam
@@ -370,8 +443,9 @@ def _object(g, depth=0):
     return Box()
 
 
-def _pgmat(g):
+def _pgmat(g, gs=None):
     from pybrops.popgen.gmat.DensePhasedGenotypeMatrix import DensePhasedGenotypeMatrix
+    DensePhasedGenotypeMatrix = _ucls(gs, DensePhasedGenotypeMatrix)
     n, p = int(g.integers(2, 6)), int(g.integers(2, 8))
     mat = g.integers(0, 2, (2, n, p)).astype("int8")
     chrgrp = numpy.sort(g.integers(1, 3, p)).astype("int64")
@@ -385,8 +459,9 @@ def _pgmat(g):
     return pg
 
 
-def _bvmat(g):
+def _bvmat(g, gs=None):
     from pybrops.popgen.bvmat.DenseBreedingValueMatrix import DenseBreedingValueMatrix
+    DenseBreedingValueMatrix = _ucls(gs, DenseBreedingValueMatrix)
     n = int(g.integers(2, 6))
     return DenseBreedingValueMatrix.from_numpy(
         g.normal(size=(n, 2)) + 3, taxa=numpy.array(["t%03d" % i for i in range(n)], dtype=object),
@@ -407,9 +482,10 @@ def _labels(g, n, prefix):
 GROUPINGS = ("taxa only", "variants only", "taxa and variants", "neither")
 
 
-def lib_gmat(g, phased, grouping=None, n=None, p=None):
+def lib_gmat(g, phased, grouping=None, n=None, p=None, gs=None):
     from pybrops.popgen.gmat.DenseGenotypeMatrix import DenseGenotypeMatrix
     from pybrops.popgen.gmat.DensePhasedGenotypeMatrix import DensePhasedGenotypeMatrix
+    DenseGenotypeMatrix, DensePhasedGenotypeMatrix = _ucls(gs, DenseGenotypeMatrix), _ucls(gs, DensePhasedGenotypeMatrix)
     n = n or int(g.integers(2, 8)); p = p or int(g.integers(2, 10))
     grouping = grouping or GROUPINGS[int(g.integers(0, 4))]
     kw = dict(taxa=_labels(g, n, "t"), vrnt_name=_labels(g, p, "m"))
@@ -439,10 +515,10 @@ def lib_gmat(g, phased, grouping=None, n=None, p=None):
     return obj
 
 
-def lib_bvmat(g, n=None, t=None):
+def lib_bvmat(g, n=None, t=None, gs=None):
     import importlib
     name = ["DenseBreedingValueMatrix", "DenseEstimatedBreedingValueMatrix", "DenseGenomicEstimatedBreedingValueMatrix"][int(g.integers(0, 3))]
-    cls = getattr(importlib.import_module("pybrops.popgen.bvmat." + name), name)
+    cls = _ucls(gs, getattr(importlib.import_module("pybrops.popgen.bvmat." + name), name))
     n = n or int(g.integers(2, 8)); t = t or int(g.integers(1, 4))
     kw = dict(taxa=_labels(g, n, "t"))
     grouped = g.random() < 0.5
@@ -459,11 +535,11 @@ def lib_bvmat(g, n=None, t=None):
     return obj
 
 
-def lib_gmod(g, p=None, t=None, name=None):
+def lib_gmod(g, p=None, t=None, name=None, gs=None):
     import importlib
     name = name or ["DenseAdditiveLinearGenomicModel", "DenseAdditiveDominanceLinearGenomicModel", "DenseAdditiveDominanceLinearGenomicModel",
                     "rrBLUPModel0"][int(g.integers(0, 4))]
-    cls = getattr(importlib.import_module("pybrops.model.gmod." + name), name)
+    cls = _ucls(gs, getattr(importlib.import_module("pybrops.model.gmod." + name), name))
     p = p or int(g.integers(1, 9)); t = t or int(g.integers(1, 4)); q = int([1, 1, 2][int(g.integers(0, 3))])
     kw = dict(beta=g.normal(size=(q, t)), u_misc=g.normal(size=(int(g.integers(1, 3)), t)) if g.random() < 0.4 else None,
               u_a=g.normal(size=(p, t)), trait=_labels(g, t, "y") if g.random() < 0.8 else None,
@@ -480,9 +556,10 @@ def lib_gmod(g, p=None, t=None, name=None):
     return cls(**kw)
 
 
-def lib_gmap(g):
+def lib_gmap(g, gs=None):
     from pybrops.popgen.gmap.ExtendedGeneticMap import ExtendedGeneticMap
     from pybrops.popgen.gmap.StandardGeneticMap import StandardGeneticMap
+    ExtendedGeneticMap, StandardGeneticMap = _ucls(gs, ExtendedGeneticMap), _ucls(gs, StandardGeneticMap)
     chrs, pos, gen = [], [], []
     for c in range(int(g.integers(1, 4))):
         k = int(g.integers(2, 6))
@@ -498,10 +575,10 @@ def lib_gmap(g):
     return ExtendedGeneticMap(chrs, pos, (pos + g.integers(0, 4, m)).astype("int64"), gen, vrnt_name=_labels(g, m, "m"), **kw)
 
 
-def lib_cmat(g, n=None):
+def lib_cmat(g, n=None, gs=None):
     import importlib
     name = ["DenseMolecularCoancestryMatrix", "DenseVanRadenCoancestryMatrix", "DenseYangCoancestryMatrix"][int(g.integers(0, 3))]
-    cls = getattr(importlib.import_module("pybrops.popgen.cmat." + name), name)
+    cls = _ucls(gs, getattr(importlib.import_module("pybrops.popgen.cmat." + name), name))
     n = n or int(g.integers(2, 7))
     a = g.normal(size=(n, n + 2))
     obj = cls(mat=a @ a.T / (n + 2), taxa=_labels(g, n, "t"), taxa_grp=g.integers(0, 3, n).astype("int64"))
@@ -522,13 +599,13 @@ def lib_frame(g, n=None, t=None):
     return pandas.DataFrame(d)
 
 
-def lib_vmat(g):
+def lib_vmat(g, gs=None):
     import importlib
     name, nsq = [("DenseTwoWayDHAdditiveGeneticVarianceMatrix", 2), ("DenseTwoWayDHAdditiveGenicVarianceMatrix", 2),
                  ("DenseThreeWayDHAdditiveGeneticVarianceMatrix", 3), ("DenseThreeWayDHAdditiveGenicVarianceMatrix", 3),
                  ("DenseFourWayDHAdditiveGeneticVarianceMatrix", 4), ("DenseFourWayDHAdditiveGenicVarianceMatrix", 4),
                  ("DenseDihybridDHAdditiveGeneticVarianceMatrix", 2), ("DenseDihybridDHAdditiveGenicVarianceMatrix", 2)][int(g.integers(0, 8))]
-    cls = getattr(importlib.import_module("pybrops.model.vmat." + name), name)
+    cls = _ucls(gs, getattr(importlib.import_module("pybrops.model.vmat." + name), name))
     n, t = int(g.integers(2, 5 if nsq < 4 else 4)), int(g.integers(1, 3))
     kw = dict(taxa=_labels(g, n, "t"), trait=_labels(g, t, "y"))
     grouped = g.random() < 0.5
@@ -540,11 +617,12 @@ def lib_vmat(g):
     return obj
 
 
-def lib_ptprot(g):
+def lib_ptprot(g, gs=None):
     from pybrops.breed.prot.pt.G_E_Phenotyping import G_E_Phenotyping
     from pybrops.breed.prot.pt.TruePhenotyping import TruePhenotyping
+    G_E_Phenotyping, TruePhenotyping = _ucls(gs, G_E_Phenotyping), _ucls(gs, TruePhenotyping)
     t = int(g.integers(1, 3))
-    gm = lib_gmod(g, t=t, name=["DenseAdditiveLinearGenomicModel", "DenseAdditiveDominanceLinearGenomicModel"][int(g.integers(0, 2))])
+    gm = lib_gmod(g, t=t, name=["DenseAdditiveLinearGenomicModel", "DenseAdditiveDominanceLinearGenomicModel"][int(g.integers(0, 2))], gs=gs)
     if g.random() < 0.3:
         return TruePhenotyping(gpmod=gm)
     nenv = int(g.integers(1, 4))
@@ -557,62 +635,64 @@ def lib_ptprot(g):
                            rng=numpy.random.default_rng(int(g.integers(1 << 30))) if g.random() < 0.5 else None)
 
 
-def gen_library_state(g):
+def gen_library_state(g, gs=None):
     """Containers as the breeding-programme documentation describes them: genomes (phased), genotypes (unphased), phenotype
-    frames, breeding values, genomic models (+ genetic maps, coancestry matrices, lists of matrices)."""
+    frames, breeding values, genomic models (+ genetic maps, coancestry matrices, lists of matrices).  With ``gs`` (an own
+    random stream) about a third of the objects are instances of a user's subclass of their library class."""
     S = [dict() for _ in NAMES]
     n, p, t = int(g.integers(2, 8)), int(g.integers(2, 10)), int(g.integers(1, 4))
     consistent = g.random() < 0.5     # one population described consistently, or unrelated objects per slot
     dims = dict(n=n, p=p) if consistent else {}
-    S[0]["cand"] = lib_gmat(g, True, **dims)
+    S[0]["cand"] = lib_gmat(g, True, **dims, gs=gs)
     if g.random() < 0.7:
-        S[0]["main"] = lib_gmat(g, True, **dims)
+        S[0]["main"] = lib_gmat(g, True, **dims, gs=gs)
     if g.random() < 0.4:
-        S[0]["queue"] = [lib_gmat(g, True) for _ in range(int(g.integers(1, 3)))]
+        S[0]["queue"] = [lib_gmat(g, True, gs=gs) for _ in range(int(g.integers(1, 3)))]
     if g.random() < 0.4:
-        S[0]["gmap"] = lib_gmap(g)
-    S[1]["cand"] = lib_gmat(g, False, **dims)
+        S[0]["gmap"] = lib_gmap(g, gs=gs)
+    S[1]["cand"] = lib_gmat(g, False, **dims, gs=gs)
     if g.random() < 0.7:
-        S[1]["main"] = lib_gmat(g, bool(g.random() < 0.3), **dims)
+        S[1]["main"] = lib_gmat(g, bool(g.random() < 0.3), **dims, gs=gs)
     if g.random() < 0.4:
-        S[1]["queue"] = [lib_gmat(g, False) for _ in range(int(g.integers(1, 3)))]
+        S[1]["queue"] = [lib_gmat(g, False, gs=gs) for _ in range(int(g.integers(1, 3)))]
     if g.random() < 0.3:
-        S[1]["kinship"] = lib_cmat(g, n if consistent else None)
+        S[1]["kinship"] = lib_cmat(g, n if consistent else None, gs=gs)
     S[2]["main"] = lib_frame(g, n if consistent else None, t if consistent else None)
     if g.random() < 0.4:
         S[2]["cand"] = lib_frame(g)
-    S[3]["cand"] = lib_bvmat(g, n if consistent else None, t if consistent else None)
+    S[3]["cand"] = lib_bvmat(g, n if consistent else None, t if consistent else None, gs=gs)
     if g.random() < 0.6:
-        S[3]["cand_true"] = lib_bvmat(g, n if consistent else None, t if consistent else None)
+        S[3]["cand_true"] = lib_bvmat(g, n if consistent else None, t if consistent else None, gs=gs)
     if g.random() < 0.6:
-        S[3]["main"] = lib_bvmat(g)
+        S[3]["main"] = lib_bvmat(g, gs=gs)
     gd = dict(p=p, t=t) if consistent else {}
-    S[4]["cand"] = lib_gmod(g, **gd)
-    S[4]["true"] = lib_gmod(g, **gd)
+    S[4]["cand"] = lib_gmod(g, **gd, gs=gs)
+    S[4]["true"] = lib_gmod(g, **gd, gs=gs)
     if g.random() < 0.6:
-        S[4]["main"] = lib_gmod(g, **gd)
+        S[4]["main"] = lib_gmod(g, **gd, gs=gs)
     if g.random() < 0.3:
-        S[4]["extra"] = {"models": [lib_gmod(g) for _ in range(int(g.integers(1, 3)))], "gmap": lib_gmap(g)}
+        S[4]["extra"] = {"models": [lib_gmod(g, gs=gs) for _ in range(int(g.integers(1, 3)))], "gmap": lib_gmap(g, gs=gs)}
     if g.random() < 0.25:
-        S[3]["progeny variance"] = lib_vmat(g)
+        S[3]["progeny variance"] = lib_vmat(g, gs=gs)
     if g.random() < 0.25:
-        S[4]["phenotyping"] = lib_ptprot(g)
+        S[4]["phenotyping"] = lib_ptprot(g, gs=gs)
     return S
 
 
-def gen_state(g, cls):
-    """Five dict containers of input class ``cls`` (live objects; the caller digests them before use)."""
+def gen_state(g, cls, gs=None):
+    """Five dict containers of input class ``cls`` (live objects; the caller digests them before use); ``gs``: own stream
+    deciding which library objects are instances of a user's subclass (None: none)."""
     S = [dict() for _ in NAMES]
     if cls == "empty":
         return S
     if cls == "library":
-        return gen_library_state(g)
+        return gen_library_state(g, gs)
     if cls == "pybrops":
-        S[0]["cand"] = _pgmat(g)
-        S[0]["main"] = _pgmat(g)
+        S[0]["cand"] = _pgmat(g, gs)
+        S[0]["main"] = _pgmat(g, gs)
         S[1]["cand"] = S[0]["cand"].mat.sum(0).astype("int8")
         S[2]["main"] = g.normal(size=(3, 2))
-        S[3]["cand"] = _bvmat(g)
+        S[3]["cand"] = _bvmat(g, gs)
         S[4]["true"] = {"beta": g.normal(size=(1, 2)), "u": g.normal(size=(4, 2))}
         return S
     for i, d in enumerate(S):
